@@ -13,7 +13,9 @@ CONSTANTS PBase, PIndex, PDisp, OBase, OIndex, ODisp
 DField(n, v) == Node("dfield", n, <<Node("flit", v, <<>>, 1, 1)>>, 1, 1)
 DerefOf(a, bc, k) ==
     Node("deref", "", <<DField("main_reg", a)>>
-                      \o (IF bc = <<>> THEN <<>> ELSE <<DField("register_multiplier", bc[1]), DField("constant_multiplier", bc[2])>>)
+                      \o (IF bc = <<>> THEN <<>>
+                          ELSE IF bc[2] = "" THEN <<DField("register_multiplier", bc[1])>>     \* an index without a scale
+                          ELSE <<DField("register_multiplier", bc[1]), DField("constant_multiplier", bc[2])>>)
                       \o (IF k = "" THEN <<>> ELSE <<DField("constant_offset", k)>>), 1, 1)
 Derefs == { DerefOf(a, bc, k) : a \in PBase, bc \in PIndex, k \in PDisp }
 Patterns == { PAnd(<<PIns("mov", <<d>>)>>) : d \in Derefs }
@@ -27,13 +29,13 @@ LineSeq == SetToSeq(Lines)
 
 \* tier constants
 Q_PBase == {"rax", "%rax", "r8"}
-Q_PIndex == {<<>>, <<"rbx", "4">>, <<"%r8", "1">>}
+Q_PIndex == {<<>>, <<"rbx", "4">>, <<"%r8", "1">>, <<"rbx", "">>}
 Q_PDisp == {"", "0x8", "8", "-0x8", "0x0", "0"}
 Q_OBase == {"%rax", "%r8", "%r8d"}
-Q_OIndex == {<<"", "">>, <<"%rbx", "4">>, <<"%r8", "1">>, <<"%rbx", "8">>, <<"%rax", "4">>}
+Q_OIndex == {<<"", "">>, <<"%rbx", "4">>, <<"%r8", "1">>, <<"%rbx", "8">>, <<"%rax", "4">>, <<"%rbx", "1">>}
 Q_ODisp == {"", "0x8", "-0x8", "0x80", "0x0"}
 T_PBase == {"rax", "%rax", "r8", "%r8d", "rbx"}
-T_PIndex == {<<>>, <<"rbx", "4">>, <<"%r8", "1">>, <<"rbx", "8">>, <<"%rbx", "0x4">>, <<"rax", "2">>}
+T_PIndex == {<<>>, <<"rbx", "">>, <<"rbx", "4">>, <<"%r8", "1">>, <<"rbx", "8">>, <<"%rbx", "0x4">>, <<"rax", "2">>}
 T_PDisp == {"", "0x8", "8", "-0x8", "0x0", "0x80", "0"}
 T_OBase == {"%rax", "%r8", "%r8d", "%rbx", "%eax"}
 T_OIndex == {<<"", "">>, <<"%rbx", "4">>, <<"%r8", "1">>, <<"%rbx", "8">>, <<"%rax", "4">>, <<"%rbx", "1">>, <<"%rax", "2">>, <<"%r8", "4">>}
